@@ -4,7 +4,7 @@
    stored records stay related by the abstraction.  Spec-level sanity lemmas. *)
 From ZV Require Import Common.Bytes Common.BytesFacts Data.Consts Data.Base Data.BaseFacts Data.MapEq Data.Map Data.MapZ Data.MapL Data.MapK
   Data.Spec Data.SpecZ Data.SpecL Data.SpecK Data.Run Data.RepColl Data.RepHS Data.RepL Data.RepZ Data.RepState
-  Data.RefHS Data.RefCmd Data.RefK Data.RepRead Data.RefL Data.RefZ Data.PreFix Data.C09Proofs.
+  Data.RefHS Data.RefCmd Data.RefK Data.RepRead Data.RefL Data.RefZ Data.PreFix Data.C09Proofs Data.ExpFacts.
 From Coq Require Import Lia ZifyBool.
 Open Scope Z_scope.
 
@@ -32,134 +32,380 @@ Section Seq.
 
   Record simS (clock : Z) (ms : mstate) (ss : sstate) : Prop := {
     ss_rep : RepS compact clock ms;
-    ss_hash : rel2 (@sim bytes) (m_hash ms) (s_hash ss);
-    ss_set : rel2 (@sim unit) (m_set ms) (s_set ss);
-    ss_zset : rel2 simz (m_zset ms) (s_zset ss);
-    ss_list : rel2 (fun l a => abs_l l = a) (m_list ms) (s_list ss);
+    ss_hash : rel2 (simx (@sim bytes)) (m_hash ms) (s_hash ss);
+    ss_set : rel2 (simx (@sim unit)) (m_set ms) (s_set ss);
+    ss_zset : rel2 (simx simz) (m_zset ms) (s_zset ss);
+    ss_list : rel2 (simx (fun l a => abs_l l = a)) (m_list ms) (s_list ss);
     ss_kv : m_kv ms = s_kv ss;
     ss_kvnd : NoDup (map fst (m_kv ms)) }.
 
   Lemma sim_empty {V} : @sim V empty_coll [].
   Proof. unfold sim, abs_c. cbn. apply meq_refl. constructor. Qed.
+  Lemma simx_empty {R A} (S : R -> list A -> Prop) r : S r [] -> simx S (x0 r) (x0 []).
+  Proof. intros H. split; [reflexivity|exact H]. Qed.
 
   Lemma simS_init : simS 0 m_init s_init.
   Proof. constructor; cbn; [apply RepS_init|constructor|constructor|constructor|constructor|reflexivity|constructor]. Qed.
 
+  (* ---------- the hypotheses of ExpFacts.Ref for the three record types ---------- *)
+  Lemma nonempty_length {A} (a : list A) : nonempty a = negb (Nat.eqb (length a) 0).
+  Proof. destruct a; reflexivity. Qed.
+  Lemma forget_c_sim {V} (c : coll V) : sim (forget_c c) (@nil (bytes * V)).
+  Proof. unfold sim, abs_c, exists_coll. cbn [forget_c c_meta]. apply meq_refl. constructor. Qed.
+  Lemma live_c_sim {V} clock (c : coll V) a : RepC compact clock c -> sim c a -> exists_coll c = nonempty a.
+  Proof. intros R S. rewrite nonempty_length. apply (sim_exists compact clock); assumption. Qed.
+  Lemma live_z_sim clock z a : RepZ compact clock z -> simz z a -> live_z z = nonempty a.
+  Proof. intros [R _] S. apply (live_c_sim clock); assumption. Qed.
+  Lemma live_l_abs clock l a : RepL compact clock l -> abs_l l = a -> l_exists l = nonempty a.
+  Proof.
+    intros R <-. unfold l_exists. destruct (l_meta l) as [m|] eqn:E.
+    - rewrite (abs_some l m E). destruct (rl_meta _ _ _ R m E) as (hle & _).
+      destruct (Z.to_nat (lm_tail m - lm_head m + 1)) eqn:N; [lia|reflexivity].
+    - rewrite (abs_none l E). reflexivity.
+  Qed.
+
+  (* commands that return early on an expired header create nothing on an absent key *)
+  Lemma del_loop_nil {V} fs : del_loop fs (@nil (bytes * V)) = ([], 0).
+  Proof. induction fs as [|f r IH]; cbn; [reflexivity|exact IH]. Qed.
+  Lemma firstn_nil' {A} n : firstn n (@nil A) = [].
+  Proof. destruct n; reflexivity. Qed.
+  Lemma skipn_nil' {A} n : skipn n (@nil A) = [].
+  Proof. destruct n; reflexivity. Qed.
+  Ltac emp := repeat match goal with
+    | |- context [del_loop ?fs []] => rewrite (del_loop_nil fs)
+    | |- context [if ?b then _ else _] => destruct b
+    | |- context [match ?o with Some _ => _ | None => _ end] => destruct o
+    | |- context [let '(_, _) := ?p in _] => destruct p
+    | |- context [match ?l with [] => _ | _ :: _ => _ end] => destruct l
+    end; cbn [fst]; try reflexivity.
+  Lemma hdel_nil key fs : fst (Spec.hdel key fs []) = [].
+  Proof. unfold Spec.hdel. emp. Qed.
+  Lemma hclear_nil key : fst (Spec.hclear key []) = [].
+  Proof. unfold Spec.hclear. emp. Qed.
+  Lemma srem_nil key ms : fst (Spec.srem key ms []) = [].
+  Proof. unfold Spec.srem. emp. Qed.
+  Lemma sclear_nil key : fst (Spec.sclear key []) = [].
+  Proof. unfold Spec.sclear. emp. Qed.
+  Lemma spop_nil key n : fst (Spec.spop key n []) = [].
+  Proof. unfold Spec.spop, smembers_n, sorted_members, sorted_pairs. cbn [map isort fold_right]. rewrite firstn_nil'. emp. Qed.
+  Lemma zguard_nil key c : z_renews c = false -> fst (SpecZ.zstep key c []) = [].
+  Proof.
+    destruct c; cbn [z_renews]; try discriminate; intros _; cbn [SpecZ.zstep]; unfold remove_members, zsorted, slice;
+      cbn [map isort fold_right filter]; rewrite ?skipn_nil', ?firstn_nil'; cbn [map]; emp.
+  Qed.
+  Lemma lguard_nil key c : l_renews c = false -> fst (SpecL.lstep key c []) = [].
+  Proof.
+    destruct c; cbn [l_renews]; try discriminate; intros _; cbn [SpecL.lstep List.rev]; unfold lslice;
+      rewrite ?skipn_nil', ?firstn_nil'; emp.
+    - destruct (Z.to_nat z); reflexivity.
+    - rewrite skipn_nil', firstn_nil'. reflexivity.
+  Qed.
+
   (* every list stays within B sequence numbers of the initial one; B grows by at most MAX_BATCH_NUM per command *)
-  Definition LBS (B : Z) (ms : mstate) : Prop := all_recs (LB B) (m_list ms).
+  Definition LBS (B : Z) (ms : mstate) : Prop := all_recs (XP (LB B)) (m_list ms).
 
   Lemma LBS_init : LBS 0 m_init.
   Proof. intros k v []. Qed.
+  Lemma LB_forget B l : LB B (forget_l l).
+  Proof. intros m E. discriminate. Qed.
 
-  Lemma map_step_LB clock ts c B ms : RepS compact clock ms -> LBS B ms -> 0 <= B ->
-    LBS (B + max_batch_num) (fst (map_step compact ts c ms)).
+  Lemma map_step_LB clock now ts c B ms : RepS compact clock ms -> LBS B ms -> 0 <= B ->
+    LBS (B + max_batch_num) (fst (map_step compact now ts c ms)).
   Proof.
     intros Rs A PB.
     assert (Keep : LBS (B + max_batch_num) ms).
     { eapply all_recs_mono; [|exact A]. intros v; apply LB_mono. unfold max_batch_num; lia. }
-    destruct c; cbn [map_step]; try exact Keep;
-      try (match goal with |- context [aupd ?d ?k ?f ?m] => destruct (aupd d k f m) end; exact Keep).
-    - pose proof (aupd_recs (fun l => RepL compact clock l /\ LB B l) (LB (B + max_batch_num)) empty_lcoll key
-                            (MapL.lstep compact ts key c) (m_list ms)) as H.
-      destruct (aupd empty_lcoll key (MapL.lstep compact ts key c) (m_list ms)) as [m r]. cbn [fst m_list] in *.
+    assert (LL : forall key (f : xr lcoll -> xr lcoll * reply),
+               (forall v, RepL compact clock (x_r v) /\ LB B (x_r v) -> LB (B + max_batch_num) (x_r (fst (f v)))) ->
+               LBS (B + max_batch_num) (fst (let '(m, r) := aupd (x0 empty_lcoll) key f (m_list ms) in
+                             (Build_mstate (m_hash ms) (m_set ms) (m_zset ms) m (m_kv ms), r)))).
+    { intros key f Hf.
+      pose proof (aupd_recs (fun v => RepL compact clock (x_r v) /\ LB B (x_r v)) (XP (LB (B + max_batch_num))) (x0 empty_lcoll) key
+                            f (m_list ms)) as H.
+      destruct (aupd (x0 empty_lcoll) key f (m_list ms)) as [m r]. cbn [fst m_list] in *.
       apply H.
       + intros v [_ Hv]. eapply LB_mono; [|exact Hv]. unfold max_batch_num; lia.
       + split; [apply RepL_empty|apply LB_empty].
-      + intros v [Rv Hv]. apply (lstep_LB compact clock); auto.
-      + intros k v Hin. split; [apply (rs_list _ _ _ Rs k v Hin)|apply (A k v Hin)].
-    - destruct (MapK.kstep ts c (m_kv ms)). exact Keep.
+      + exact Hf.
+      + intros k v Hin. split; [apply (rs_list _ _ _ Rs k v Hin)|apply (A k v Hin)]. }
+    destruct c; cbn [map_step]; try exact Keep;
+      try (match goal with |- context [aupd ?d ?k ?f ?m] => destruct (aupd d k f m) end; exact Keep).
+    - destruct (negb (key_ok key)); [exact Keep|].
+      destruct t; try (match goal with |- context [aupd ?d ?k ?f ?m] => destruct (aupd d k f m) end; exact Keep).
+      apply LL. intros v [_ Hv]. rewrite xexpire_r. eapply LB_mono; [|exact Hv]. unfold max_batch_num; lia.
+    - destruct (negb (key_ok key)); [exact Keep|].
+      destruct t; try (match goal with |- context [aupd ?d ?k ?f ?m] => destruct (aupd d k f m) end; exact Keep).
+      apply LL. intros v [_ Hv]. rewrite xpersist_r. eapply LB_mono; [|exact Hv]. unfold max_batch_num; lia.
+    - destruct (negb (key_ok key)); exact Keep.
+    - apply LL. intros v Hv.
+      assert (Hf : forall r, RepL compact clock r /\ LB B r -> LB (B + max_batch_num) (fst (MapL.lstep compact ts key c r)))
+        by (intros r [Rr Br]; apply (lstep_LB compact clock); auto).
+      assert (Mo : forall r, RepL compact clock r /\ LB B r -> LB (B + max_batch_num) r)
+        by (intros r [_ Br]; eapply LB_mono; [|exact Br]; unfold max_batch_num; lia).
+      destruct (l_renews c).
+      + apply (xrenew_inv l_exists forget_l compact (fun r => RepL compact clock r /\ LB B r) (LB (B + max_batch_num))); auto.
+        intros Cc r [Rr _]. split; [apply forget_l_rep; assumption|apply LB_forget].
+      + apply (xguard_inv l_exists compact (fun r => RepL compact clock r /\ LB B r) (LB (B + max_batch_num))); auto.
+    - destruct (MapK.kstep compact ts c (m_kv ms)). exact Keep.
   Qed.
 
-  (* one covered command: equal replies, related successor states *)
-  Theorem step_ref clock ts c bnd ms ss : simS clock ms ss -> 0 <= clock < ts ->
-    LBS bnd ms -> 0 <= bnd -> bnd + max_batch_num < seq_room ->
-    snd (map_step compact ts c ms) = snd (spec_step c ss) /\
-    simS ts (fst (map_step compact ts c ms)) (fst (spec_step c ss)).
+  (* a list command refines (within the bound a push has room) *)
+  Lemma lstep_fref clock ts key c bnd : 0 <= clock < ts -> 0 <= bnd -> bnd + max_batch_num < seq_room ->
+    fref (fun l => RepL compact clock l /\ LB bnd l) (RepL compact ts) (fun l a => abs_l l = a)
+         (MapL.lstep compact ts key c) (SpecL.lstep key c).
   Proof.
-    intros S L LBm PB Room. pose proof (map_step_rep compact clock ts c ms (ss_rep _ _ _ S) L) as Rn.
+    intros L PB Room l a [RL HB] AB. subst a.
+    split; [|split]; [| |apply (lstep_rep compact clock); auto]; destruct c.
+    1, 7: apply (lpush_ref compact clock); auto; intros TM;
+      (destruct vs as [|x0' r0] eqn:EV;
+       [unfold push_in_bounds, push_last, seq_room in *; cbn [length]; change (Z.of_nat 0) with 0;
+        unfold l_size, l_head, l_tail; destruct (l_meta l) as [m0|] eqn:E0;
+        [destruct (HB m0 E0) as [a1 a2]; destruct (rl_meta _ _ _ RL m0 E0) as (hle & _);
+         assert (0 <? lm_tail m0 - lm_head m0 + 1 = true) as -> by lia; unfold max_batch_num in *; destruct tail; cbv iota; lia
+        |change (0 <? 0) with false; cbv iota; unfold max_batch_num in *; destruct tail; cbv iota; lia]
+       |rewrite <- EV; apply (LB_push_in_bounds compact clock bnd); auto; rewrite EV; [exact TM|discriminate]]).
+    all: try (apply (lpop_ref compact clock); auto).
+    all: try (apply (lset_ref compact clock); auto).
+    all: try (apply (ltrim_ref compact clock); auto).
+    all: try (apply (lclear_ref compact clock); auto).
+    all: reflexivity.
+  Qed.
+
+  Lemma zstep_fref clock ts key c : 0 <= clock < ts ->
+    fref (RepZ compact clock) (RepZ compact ts) simz (MapZ.zstep compact ts key c) (SpecZ.zstep key c).
+  Proof.
+    intros L z a RZ' SZ.
+    assert (W : zref (MapZ.zstep compact ts key c) (SpecZ.zstep key c) z a).
+    { destruct c.
+      - apply (zadd_ref compact clock); auto.
+      - apply (zincrby_ref compact clock); auto.
+      - apply (zrem_ref compact clock); auto.
+      - apply (zremrangebyrank_ref compact clock); auto.
+      - apply (zremrangebyscore_ref compact clock); auto.
+      - apply (zremrangebylex_ref compact clock); auto.
+      - apply (zclear_ref compact clock); auto.
+      - split; [reflexivity|exact SZ]. }
+    destruct W as [W1 W2]. split; [exact W1|split; [exact W2|apply (zstep_rep compact clock); auto]].
+  Qed.
+
+  (* one command: equal replies, related successor states *)
+  Theorem step_ref clock now ts c bnd ms ss : simS clock ms ss -> 0 <= clock < ts ->
+    LBS bnd ms -> 0 <= bnd -> bnd + max_batch_num < seq_room ->
+    snd (map_step compact now ts c ms) = snd (spec_step compact now ts c ss) /\
+    simS ts (fst (map_step compact now ts c ms)) (fst (spec_step compact now ts c ss)).
+  Proof.
+    intros S L LBm PB Room. pose proof (map_step_rep compact clock now ts c ms (ss_rep _ _ _ S) L) as Rn.
     destruct S as [Rs Sh Sst Sz Sl Skv Snd].
     pose proof (rs_hash _ _ _ Rs) as RH. pose proof (rs_set _ _ _ Rs) as RSt.
-    assert (LH : forall key, RepC compact clock (alook empty_coll key (m_hash ms)) /\
-                             sim (alook empty_coll key (m_hash ms)) (alook [] key (s_hash ss))).
-    { intros key. split; [apply alook_rec; [apply RepC_empty|exact RH]|apply rel2_alook; [apply sim_empty|exact Sh]]. }
-    assert (LS : forall key, RepC compact clock (alook empty_coll key (m_set ms)) /\
-                             sim (alook empty_coll key (m_set ms)) (alook [] key (s_set ss))).
-    { intros key. split; [apply alook_rec; [apply RepC_empty|exact RSt]|apply rel2_alook; [apply sim_empty|exact Sst]]. }
-    (* a hash write *)
-    assert (HW : forall key (mf : hcoll -> hcoll * reply) (sf : shash -> shash * reply),
-               wref ts mf sf (alook empty_coll key (m_hash ms)) (alook [] key (s_hash ss)) ->
-               forall Rn' : RepS compact ts (fst (let '(m, r) := aupd empty_coll key mf (m_hash ms) in
+    pose proof (rs_zset _ _ _ Rs) as RZs. pose proof (rs_list _ _ _ Rs) as RLs.
+    assert (LH : forall key, RepC compact clock (x_r (alook (x0 empty_coll) key (m_hash ms))) /\
+                             simx (@sim bytes) (alook (x0 empty_coll) key (m_hash ms)) (alook (x0 []) key (s_hash ss))).
+    { intros key. split; [apply (alook_rec (XP (RepC compact clock))); [apply RepC_empty|exact RH]
+                         |apply rel2_alook; [apply simx_empty, sim_empty|exact Sh]]. }
+    assert (LS : forall key, RepC compact clock (x_r (alook (x0 empty_coll) key (m_set ms))) /\
+                             simx (@sim unit) (alook (x0 empty_coll) key (m_set ms)) (alook (x0 []) key (s_set ss))).
+    { intros key. split; [apply (alook_rec (XP (RepC compact clock))); [apply RepC_empty|exact RSt]
+                         |apply rel2_alook; [apply simx_empty, sim_empty|exact Sst]]. }
+    assert (LZ : forall key, RepZ compact clock (x_r (alook (x0 empty_zcoll) key (m_zset ms))) /\
+                             simx simz (alook (x0 empty_zcoll) key (m_zset ms)) (alook (x0 []) key (s_zset ss))).
+    { intros key. split; [apply (alook_rec (XP (RepZ compact clock))); [apply RepZ_empty|exact RZs]
+                         |apply rel2_alook; [apply simx_empty, (@sim_empty score)|exact Sz]]. }
+    assert (LLs : forall key, (RepL compact clock (x_r (alook (x0 empty_lcoll) key (m_list ms))) /\
+                               LB bnd (x_r (alook (x0 empty_lcoll) key (m_list ms)))) /\
+                             simx (fun l a => abs_l l = a) (alook (x0 empty_lcoll) key (m_list ms)) (alook (x0 []) key (s_list ss))).
+    { intros key. split; [split; [apply (alook_rec (XP (RepL compact clock))); [apply RepL_empty|exact RLs]
+                                 |apply (alook_rec (XP (LB bnd))); [apply LB_empty|exact LBm]]
+                         |apply rel2_alook; [apply simx_empty; reflexivity|exact Sl]]. }
+    (* writes of one record *)
+    assert (HW : forall key (mf : xr hcoll -> xr hcoll * reply) (sf : xr shash -> xr shash * reply),
+               (snd (mf (alook (x0 empty_coll) key (m_hash ms))) = snd (sf (alook (x0 []) key (s_hash ss))) /\
+                simx (@sim bytes) (fst (mf (alook (x0 empty_coll) key (m_hash ms)))) (fst (sf (alook (x0 []) key (s_hash ss))))) ->
+               forall Rn' : RepS compact ts (fst (let '(m, r) := aupd (x0 empty_coll) key mf (m_hash ms) in
                                                   (Build_mstate m (m_set ms) (m_zset ms) (m_list ms) (m_kv ms), r))),
-               snd (let '(m, r) := aupd empty_coll key mf (m_hash ms) in (Build_mstate m (m_set ms) (m_zset ms) (m_list ms) (m_kv ms), r)) =
-               snd (let '(m, r) := aupd [] key sf (s_hash ss) in (Build_sstate m (s_set ss) (s_zset ss) (s_list ss) (s_kv ss), r)) /\
-               simS ts (fst (let '(m, r) := aupd empty_coll key mf (m_hash ms) in (Build_mstate m (m_set ms) (m_zset ms) (m_list ms) (m_kv ms), r)))
-                       (fst (let '(m, r) := aupd [] key sf (s_hash ss) in (Build_sstate m (s_set ss) (s_zset ss) (s_list ss) (s_kv ss), r)))).
+               snd (let '(m, r) := aupd (x0 empty_coll) key mf (m_hash ms) in (Build_mstate m (m_set ms) (m_zset ms) (m_list ms) (m_kv ms), r)) =
+               snd (let '(m, r) := aupd (x0 []) key sf (s_hash ss) in (Build_sstate m (s_set ss) (s_zset ss) (s_list ss) (s_kv ss), r)) /\
+               simS ts (fst (let '(m, r) := aupd (x0 empty_coll) key mf (m_hash ms) in (Build_mstate m (m_set ms) (m_zset ms) (m_list ms) (m_kv ms), r)))
+                       (fst (let '(m, r) := aupd (x0 []) key sf (s_hash ss) in (Build_sstate m (s_set ss) (s_zset ss) (s_list ss) (s_kv ss), r)))).
     { intros key mf sf [W1 W2] Rn'. unfold aupd in *.
-      destruct (mf (alook empty_coll key (m_hash ms))) as [c' r1]. destruct (sf (alook [] key (s_hash ss))) as [a' r2].
+      destruct (mf (alook (x0 empty_coll) key (m_hash ms))) as [c' r1]. destruct (sf (alook (x0 []) key (s_hash ss))) as [a' r2].
       cbn [fst snd] in *. split; [exact W1|]. constructor; cbn [m_hash m_set m_zset m_list m_kv s_hash s_set s_zset s_list s_kv]; auto.
       apply rel2_aput; assumption. }
-    assert (SW : forall key (mf : scoll -> scoll * reply) (sf : sset -> sset * reply),
-               swref mf sf (alook empty_coll key (m_set ms)) (alook [] key (s_set ss)) ->
-               forall Rn' : RepS compact ts (fst (let '(m, r) := aupd empty_coll key mf (m_set ms) in
+    assert (SW : forall key (mf : xr scoll -> xr scoll * reply) (sf : xr sset -> xr sset * reply),
+               (snd (mf (alook (x0 empty_coll) key (m_set ms))) = snd (sf (alook (x0 []) key (s_set ss))) /\
+                simx (@sim unit) (fst (mf (alook (x0 empty_coll) key (m_set ms)))) (fst (sf (alook (x0 []) key (s_set ss))))) ->
+               forall Rn' : RepS compact ts (fst (let '(m, r) := aupd (x0 empty_coll) key mf (m_set ms) in
                                                   (Build_mstate (m_hash ms) m (m_zset ms) (m_list ms) (m_kv ms), r))),
-               snd (let '(m, r) := aupd empty_coll key mf (m_set ms) in (Build_mstate (m_hash ms) m (m_zset ms) (m_list ms) (m_kv ms), r)) =
-               snd (let '(m, r) := aupd [] key sf (s_set ss) in (Build_sstate (s_hash ss) m (s_zset ss) (s_list ss) (s_kv ss), r)) /\
-               simS ts (fst (let '(m, r) := aupd empty_coll key mf (m_set ms) in (Build_mstate (m_hash ms) m (m_zset ms) (m_list ms) (m_kv ms), r)))
-                       (fst (let '(m, r) := aupd [] key sf (s_set ss) in (Build_sstate (s_hash ss) m (s_zset ss) (s_list ss) (s_kv ss), r)))).
+               snd (let '(m, r) := aupd (x0 empty_coll) key mf (m_set ms) in (Build_mstate (m_hash ms) m (m_zset ms) (m_list ms) (m_kv ms), r)) =
+               snd (let '(m, r) := aupd (x0 []) key sf (s_set ss) in (Build_sstate (s_hash ss) m (s_zset ss) (s_list ss) (s_kv ss), r)) /\
+               simS ts (fst (let '(m, r) := aupd (x0 empty_coll) key mf (m_set ms) in (Build_mstate (m_hash ms) m (m_zset ms) (m_list ms) (m_kv ms), r)))
+                       (fst (let '(m, r) := aupd (x0 []) key sf (s_set ss) in (Build_sstate (s_hash ss) m (s_zset ss) (s_list ss) (s_kv ss), r)))).
     { intros key mf sf [W1 W2] Rn'. unfold aupd in *.
-      destruct (mf (alook empty_coll key (m_set ms))) as [c' r1]. destruct (sf (alook [] key (s_set ss))) as [a' r2].
+      destruct (mf (alook (x0 empty_coll) key (m_set ms))) as [c' r1]. destruct (sf (alook (x0 []) key (s_set ss))) as [a' r2].
+      cbn [fst snd] in *. split; [exact W1|]. constructor; cbn [m_hash m_set m_zset m_list m_kv s_hash s_set s_zset s_list s_kv]; auto.
+      apply rel2_aput; assumption. }
+    assert (ZW : forall key (mf : xr zcoll -> xr zcoll * reply) (sf : xr szset -> xr szset * reply),
+               (snd (mf (alook (x0 empty_zcoll) key (m_zset ms))) = snd (sf (alook (x0 []) key (s_zset ss))) /\
+                simx simz (fst (mf (alook (x0 empty_zcoll) key (m_zset ms)))) (fst (sf (alook (x0 []) key (s_zset ss))))) ->
+               forall Rn' : RepS compact ts (fst (let '(m, r) := aupd (x0 empty_zcoll) key mf (m_zset ms) in
+                                                  (Build_mstate (m_hash ms) (m_set ms) m (m_list ms) (m_kv ms), r))),
+               snd (let '(m, r) := aupd (x0 empty_zcoll) key mf (m_zset ms) in (Build_mstate (m_hash ms) (m_set ms) m (m_list ms) (m_kv ms), r)) =
+               snd (let '(m, r) := aupd (x0 []) key sf (s_zset ss) in (Build_sstate (s_hash ss) (s_set ss) m (s_list ss) (s_kv ss), r)) /\
+               simS ts (fst (let '(m, r) := aupd (x0 empty_zcoll) key mf (m_zset ms) in (Build_mstate (m_hash ms) (m_set ms) m (m_list ms) (m_kv ms), r)))
+                       (fst (let '(m, r) := aupd (x0 []) key sf (s_zset ss) in (Build_sstate (s_hash ss) (s_set ss) m (s_list ss) (s_kv ss), r)))).
+    { intros key mf sf [W1 W2] Rn'. unfold aupd in *.
+      destruct (mf (alook (x0 empty_zcoll) key (m_zset ms))) as [c' r1]. destruct (sf (alook (x0 []) key (s_zset ss))) as [a' r2].
+      cbn [fst snd] in *. split; [exact W1|]. constructor; cbn [m_hash m_set m_zset m_list m_kv s_hash s_set s_zset s_list s_kv]; auto.
+      apply rel2_aput; assumption. }
+    assert (LW : forall key (mf : xr lcoll -> xr lcoll * reply) (sf : xr slist -> xr slist * reply),
+               (snd (mf (alook (x0 empty_lcoll) key (m_list ms))) = snd (sf (alook (x0 []) key (s_list ss))) /\
+                simx (fun l a => abs_l l = a) (fst (mf (alook (x0 empty_lcoll) key (m_list ms)))) (fst (sf (alook (x0 []) key (s_list ss))))) ->
+               forall Rn' : RepS compact ts (fst (let '(m, r) := aupd (x0 empty_lcoll) key mf (m_list ms) in
+                                                  (Build_mstate (m_hash ms) (m_set ms) (m_zset ms) m (m_kv ms), r))),
+               snd (let '(m, r) := aupd (x0 empty_lcoll) key mf (m_list ms) in (Build_mstate (m_hash ms) (m_set ms) (m_zset ms) m (m_kv ms), r)) =
+               snd (let '(m, r) := aupd (x0 []) key sf (s_list ss) in (Build_sstate (s_hash ss) (s_set ss) (s_zset ss) m (s_kv ss), r)) /\
+               simS ts (fst (let '(m, r) := aupd (x0 empty_lcoll) key mf (m_list ms) in (Build_mstate (m_hash ms) (m_set ms) (m_zset ms) m (m_kv ms), r)))
+                       (fst (let '(m, r) := aupd (x0 []) key sf (s_list ss) in (Build_sstate (s_hash ss) (s_set ss) (s_zset ss) m (s_kv ss), r)))).
+    { intros key mf sf [W1 W2] Rn'. unfold aupd in *.
+      destruct (mf (alook (x0 empty_lcoll) key (m_list ms))) as [c' r1]. destruct (sf (alook (x0 []) key (s_list ss))) as [a' r2].
       cbn [fst snd] in *. split; [exact W1|]. constructor; cbn [m_hash m_set m_zset m_list m_kv s_hash s_set s_zset s_list s_kv]; auto.
       apply rel2_aput; assumption. }
     assert (Keep : simS ts ms ss).
     { constructor; auto. eapply RepS_mono; [|exact Rs]. lia. }
+    (* the Ref hypotheses *)
+    assert (PQc : forall V (r : coll V), RepC compact clock r -> RepC compact ts r) by (intros V r; apply RepC_mono; lia).
+    assert (PQz : forall r, RepZ compact clock r -> RepZ compact ts r) by (intros r; apply RepZ_mono; lia).
+    assert (PQl : forall r, RepL compact clock r /\ LB bnd r -> RepL compact ts r) by (intros r [Rr _]; eapply RepL_mono; [|exact Rr]; lia).
+    assert (Fc : forall V, compact = true -> forall r : coll V, RepC compact clock r -> RepC compact clock (forget_c r))
+      by (intros V Cc r; apply forget_c_rep; exact Cc).
+    assert (Fz : compact = true -> forall r, RepZ compact clock r -> RepZ compact clock (forget_z r))
+      by (intros Cc r; apply forget_z_rep; exact Cc).
+    assert (Fl : compact = true -> forall r, RepL compact clock r /\ LB bnd r -> RepL compact clock (forget_l r) /\ LB bnd (forget_l r))
+      by (intros Cc r [Rr _]; split; [apply forget_l_rep; assumption|apply LB_forget]).
+    assert (SFc : forall V, compact = true -> forall r : coll V, RepC compact clock r -> sim (forget_c r) (@nil (bytes * V)))
+      by (intros V _ r _; apply forget_c_sim).
+    assert (SFz : compact = true -> forall r, RepZ compact clock r -> simz (forget_z r) [])
+      by (intros _ r _; apply (@forget_c_sim score)).
+    assert (SFl : compact = true -> forall r, RepL compact clock r /\ LB bnd r -> abs_l (forget_l r) = [])
+      by (intros _ r _; apply abs_none; reflexivity).
+    assert (SLc : forall V (r : coll V) a, RepC compact ts r -> sim r a -> exists_coll r = nonempty a)
+      by (intros V r a; apply live_c_sim).
+    assert (SLz : forall r a, RepZ compact ts r -> simz r a -> live_z r = nonempty a) by (intros r a; apply live_z_sim).
+    assert (SLl : forall r a, RepL compact ts r -> abs_l r = a -> l_exists r = nonempty a) by (intros r a; apply live_l_abs).
     destruct c; cbn [map_step spec_step] in *.
-    - destruct (LH key) as [R1 S1]. apply HW; [apply (hset_ref compact clock); auto|exact Rn].
-    - destruct (LH key) as [R1 S1]. apply HW; [apply (hmset_ref compact clock); auto|exact Rn].
-    - destruct (LH key) as [R1 S1]. apply HW; [|exact Rn].
-      destruct (hdel_ref compact clock key fs _ _ R1 S1) as [A B]. split; assumption.
-    - destruct (LH key) as [R1 S1]. apply HW; [apply (hincrby_ref compact clock); auto|exact Rn].
-    - destruct (LH key) as [R1 S1]. apply HW; [|exact Rn].
-      destruct (hclear_ref compact clock key _ _ R1 S1) as [A B]. split; assumption.
-    - destruct (LH key) as [R1 S1]. destruct (hash_reads_ref compact clock key _ _ R1 S1) as (a & _). cbn [fst snd]. split; [exact a|exact Keep].
-    - destruct (LH key) as [R1 S1]. destruct (hash_reads_ref compact clock key _ _ R1 S1) as (_ & a & _). cbn [fst snd]. split; [apply a|exact Keep].
-    - destruct (LH key) as [R1 S1]. destruct (hash_reads_ref compact clock key _ _ R1 S1) as (_ & _ & a & _). cbn [fst snd]. split; [apply a|exact Keep].
-    - destruct (LH key) as [R1 S1]. destruct (hash_reads_ref compact clock key _ _ R1 S1) as (_ & _ & _ & a & _). cbn [fst snd]. split; [apply a|exact Keep].
-    - destruct (LH key) as [R1 S1]. destruct (hash_reads_ref compact clock key _ _ R1 S1) as (_ & _ & _ & _ & a & _). cbn [fst snd]. split; [exact a|exact Keep].
-    - destruct (LH key) as [R1 S1]. destruct (hash_reads_ref compact clock key _ _ R1 S1) as (_ & _ & _ & _ & _ & a & _). cbn [fst snd]. split; [exact a|exact Keep].
-    - destruct (LH key) as [R1 S1]. destruct (hash_reads_ref compact clock key _ _ R1 S1) as (_ & _ & _ & _ & _ & _ & a & _). cbn [fst snd]. split; [exact a|exact Keep].
-    - destruct (LH key) as [R1 S1]. destruct (hash_reads_ref compact clock key _ _ R1 S1) as (_ & _ & _ & _ & _ & _ & _ & a). cbn [fst snd]. split; [exact a|exact Keep].
-    - destruct (LS key) as [R1 S1]. apply SW; [apply (sadd_ref compact clock); auto|exact Rn].
-    - destruct (LS key) as [R1 S1]. apply SW; [apply (srem_ref compact clock); auto|exact Rn].
-    - destruct (LS key) as [R1 S1]. apply SW; [apply (spop_ref compact clock); auto|exact Rn].
-    - destruct (LS key) as [R1 S1]. apply SW; [apply (sclear_ref compact clock); auto|exact Rn].
-    - destruct (LS key) as [R1 S1]. destruct (set_reads_ref compact clock key _ _ R1 S1) as (a & _). cbn [fst snd]. split; [exact a|exact Keep].
-    - destruct (LS key) as [R1 S1]. destruct (set_reads_ref compact clock key _ _ R1 S1) as (_ & a & _). cbn [fst snd]. split; [apply a|exact Keep].
-    - destruct (LS key) as [R1 S1]. destruct (set_reads_ref compact clock key _ _ R1 S1) as (_ & _ & a & _). cbn [fst snd]. split; [exact a|exact Keep].
-    - destruct (LS key) as [R1 S1]. destruct (set_reads_ref compact clock key _ _ R1 S1) as (_ & _ & _ & a & _). cbn [fst snd]. split; [apply a|exact Keep].
-    - destruct (LS key) as [R1 S1]. destruct (set_reads_ref compact clock key _ _ R1 S1) as (_ & _ & _ & _ & a). cbn [fst snd]. split; [exact a|exact Keep].
+    - (* *expire *)
+      destruct (negb (key_ok key)); [split; [reflexivity|exact Keep]|]. destruct t.
+      + destruct (LH key) as [R1 S1]. apply HW; [|exact Rn].
+        apply (xexpire_ref exists_coll forget_c compact (RepC compact clock) (RepC compact ts) (@sim bytes)); auto.
+      + destruct (LS key) as [R1 S1]. apply SW; [|exact Rn].
+        apply (xexpire_ref exists_coll forget_c compact (RepC compact clock) (RepC compact ts) (@sim unit)); auto.
+      + destruct (LZ key) as [R1 S1]. apply ZW; [|exact Rn].
+        apply (xexpire_ref live_z forget_z compact (RepZ compact clock) (RepZ compact ts) simz); auto.
+      + destruct (LLs key) as [R1 S1]. apply LW; [|exact Rn].
+        apply (xexpire_ref l_exists forget_l compact (fun l => RepL compact clock l /\ LB bnd l) (RepL compact ts) (fun l a => abs_l l = a)); auto.
+    - (* *persist *)
+      destruct (negb (key_ok key)); [split; [reflexivity|exact Keep]|]. destruct t.
+      + destruct (LH key) as [R1 S1]. apply HW; [|exact Rn].
+        apply (xpersist_ref exists_coll forget_c compact (RepC compact clock) (RepC compact ts) (@sim bytes)); auto.
+      + destruct (LS key) as [R1 S1]. apply SW; [|exact Rn].
+        apply (xpersist_ref exists_coll forget_c compact (RepC compact clock) (RepC compact ts) (@sim unit)); auto.
+      + destruct (LZ key) as [R1 S1]. apply ZW; [|exact Rn].
+        apply (xpersist_ref live_z forget_z compact (RepZ compact clock) (RepZ compact ts) simz); auto.
+      + destruct (LLs key) as [R1 S1]. apply LW; [|exact Rn].
+        apply (xpersist_ref l_exists forget_l compact (fun l => RepL compact clock l /\ LB bnd l) (RepL compact ts) (fun l a => abs_l l = a)); auto.
+    - (* *ttl *)
+      destruct (negb (key_ok key)); [split; [reflexivity|exact Keep]|]. cbn [fst snd]. split; [|exact Keep]. f_equal. destruct t.
+      + destruct (LH key) as [R1 S1].
+        apply (xttl_ref exists_coll forget_c compact (RepC compact clock) (RepC compact ts) (@sim bytes)); auto.
+      + destruct (LS key) as [R1 S1].
+        apply (xttl_ref exists_coll forget_c compact (RepC compact clock) (RepC compact ts) (@sim unit)); auto.
+      + destruct (LZ key) as [R1 S1].
+        apply (xttl_ref live_z forget_z compact (RepZ compact clock) (RepZ compact ts) simz); auto.
+      + destruct (LLs key) as [R1 S1].
+        apply (xttl_ref l_exists forget_l compact (fun l => RepL compact clock l /\ LB bnd l) (RepL compact ts) (fun l a => abs_l l = a)); auto.
+    - split; [reflexivity|exact Keep].
+    - (* hset *) destruct (LH key) as [R1 S1]. apply HW; [|exact Rn].
+      apply (xrenew_ref exists_coll forget_c compact (RepC compact clock) (RepC compact ts) (@sim bytes)); auto.
+      intros r a Rr Sr. destruct (hset_ref compact clock ts nx key f x r a Rr L Sr) as [W1 W2].
+      split; [exact W1|split; [exact W2|apply (hset_rep compact clock); auto]].
+    - (* hmset *) destruct (LH key) as [R1 S1]. apply HW; [|exact Rn].
+      apply (xrenew_ref exists_coll forget_c compact (RepC compact clock) (RepC compact ts) (@sim bytes)); auto.
+      intros r a Rr Sr. destruct (hmset_ref compact clock ts key fvs r a Rr L Sr) as [W1 W2].
+      split; [exact W1|split; [exact W2|apply (hmset_rep compact clock); auto]].
+    - (* hdel *) destruct (LH key) as [R1 S1]. apply HW; [|exact Rn].
+      assert (F : fref (RepC compact clock) (RepC compact ts) (@sim bytes) (Map.hdel key fs) (Spec.hdel key fs)).
+      { intros r a Rr Sr. destruct (hdel_ref compact clock key fs r a Rr Sr) as [W1 W2].
+        split; [exact W1|split; [exact W2|apply PQc, hdel_rep; exact Rr]]. }
+      destruct (F empty_coll [] (RepC_empty compact clock) sim_empty) as (E0 & _). replace (snd (Map.hdel key fs empty_coll)) with (snd (Spec.hdel key fs [])) by (symmetry; exact E0).
+      apply (xguard_ref exists_coll compact (RepC compact clock) (RepC compact ts) (@sim bytes)); auto. apply hdel_nil.
+    - (* hincrby *) destruct (LH key) as [R1 S1]. apply HW; [|exact Rn].
+      apply (xrenew_ref exists_coll forget_c compact (RepC compact clock) (RepC compact ts) (@sim bytes)); auto.
+      intros r a Rr Sr. destruct (hincrby_ref compact clock ts key f d r a Rr L Sr) as [W1 W2].
+      split; [exact W1|split; [exact W2|apply (hincrby_rep compact clock); auto]].
+    - (* hclear *) destruct (LH key) as [R1 S1]. apply HW; [|exact Rn].
+      assert (F : fref (RepC compact clock) (RepC compact ts) (@sim bytes) (Map.hclear compact key) (Spec.hclear key)).
+      { intros r a Rr Sr. destruct (hclear_ref compact clock key r a Rr Sr) as [W1 W2].
+        split; [exact W1|split; [exact W2|apply PQc, hclear_rep; exact Rr]]. }
+      destruct (F empty_coll [] (RepC_empty compact clock) sim_empty) as (E0 & _). replace (snd (Map.hclear compact key empty_coll)) with (snd (Spec.hclear key [])) by (symmetry; exact E0).
+      apply (xguard_ref exists_coll compact (RepC compact clock) (RepC compact ts) (@sim bytes)); auto. apply hclear_nil.
+    - destruct (LH key) as [R1 S1]. destruct (xview_ref forget_c compact (RepC compact clock) (@sim bytes) (Fc _) (SFc _) now _ _ R1 S1) as [R2 S2].
+      destruct (hash_reads_ref compact clock key _ _ R2 S2) as (a & _). cbn [fst snd]. split; [exact a|exact Keep].
+    - destruct (LH key) as [R1 S1]. destruct (xview_ref forget_c compact (RepC compact clock) (@sim bytes) (Fc _) (SFc _) now _ _ R1 S1) as [R2 S2].
+      destruct (hash_reads_ref compact clock key _ _ R2 S2) as (_ & a & _). cbn [fst snd]. split; [apply a|exact Keep].
+    - destruct (LH key) as [R1 S1]. destruct (xview_ref forget_c compact (RepC compact clock) (@sim bytes) (Fc _) (SFc _) now _ _ R1 S1) as [R2 S2].
+      destruct (hash_reads_ref compact clock key _ _ R2 S2) as (_ & _ & a & _). cbn [fst snd]. split; [apply a|exact Keep].
+    - destruct (LH key) as [R1 S1]. destruct (xview_ref forget_c compact (RepC compact clock) (@sim bytes) (Fc _) (SFc _) now _ _ R1 S1) as [R2 S2].
+      destruct (hash_reads_ref compact clock key _ _ R2 S2) as (_ & _ & _ & a & _). cbn [fst snd]. split; [apply a|exact Keep].
+    - destruct (LH key) as [R1 S1]. destruct (xview_ref forget_c compact (RepC compact clock) (@sim bytes) (Fc _) (SFc _) now _ _ R1 S1) as [R2 S2].
+      destruct (hash_reads_ref compact clock key _ _ R2 S2) as (_ & _ & _ & _ & a & _). cbn [fst snd]. split; [exact a|exact Keep].
+    - destruct (LH key) as [R1 S1]. destruct (xview_ref forget_c compact (RepC compact clock) (@sim bytes) (Fc _) (SFc _) now _ _ R1 S1) as [R2 S2].
+      destruct (hash_reads_ref compact clock key _ _ R2 S2) as (_ & _ & _ & _ & _ & a & _). cbn [fst snd]. split; [exact a|exact Keep].
+    - destruct (LH key) as [R1 S1]. destruct (xview_ref forget_c compact (RepC compact clock) (@sim bytes) (Fc _) (SFc _) now _ _ R1 S1) as [R2 S2].
+      destruct (hash_reads_ref compact clock key _ _ R2 S2) as (_ & _ & _ & _ & _ & _ & a & _). cbn [fst snd]. split; [exact a|exact Keep].
+    - destruct (LH key) as [R1 S1]. destruct (xview_ref forget_c compact (RepC compact clock) (@sim bytes) (Fc _) (SFc _) now _ _ R1 S1) as [R2 S2].
+      destruct (hash_reads_ref compact clock key _ _ R2 S2) as (_ & _ & _ & _ & _ & _ & _ & a). cbn [fst snd]. split; [exact a|exact Keep].
+    - (* sadd *) destruct (LS key) as [R1 S1]. apply SW; [|exact Rn].
+      apply (xrenew_ref exists_coll forget_c compact (RepC compact clock) (RepC compact ts) (@sim unit)); auto.
+      intros r a Rr Sr. destruct (sadd_ref compact clock ts key ms0 r a Rr L Sr) as [W1 W2].
+      split; [exact W1|split; [exact W2|apply (sadd_rep compact clock); auto]].
+    - (* srem *) destruct (LS key) as [R1 S1]. apply SW; [|exact Rn].
+      assert (F : fref (RepC compact clock) (RepC compact ts) (@sim unit) (Map.srem key ms0) (Spec.srem key ms0)).
+      { intros r a Rr Sr. destruct (srem_ref compact clock key ms0 r a Rr Sr) as [W1 W2].
+        split; [exact W1|split; [exact W2|apply PQc, srem_rep; exact Rr]]. }
+      destruct (F empty_coll [] (RepC_empty compact clock) sim_empty) as (E0 & _). replace (snd (Map.srem key ms0 empty_coll)) with (snd (Spec.srem key ms0 [])) by (symmetry; exact E0).
+      apply (xguard_ref exists_coll compact (RepC compact clock) (RepC compact ts) (@sim unit)); auto. apply srem_nil.
+    - (* spop *) destruct (LS key) as [R1 S1]. apply SW; [|exact Rn].
+      assert (F : fref (RepC compact clock) (RepC compact ts) (@sim unit) (Map.spop key count) (Spec.spop key count)).
+      { intros r a Rr Sr. destruct (spop_ref compact clock key count r a Rr Sr) as [W1 W2].
+        split; [exact W1|split; [exact W2|apply PQc, spop_rep; exact Rr]]. }
+      destruct (F empty_coll [] (RepC_empty compact clock) sim_empty) as (E0 & _). replace (snd (Map.spop key count empty_coll)) with (snd (Spec.spop key count [])) by (symmetry; exact E0).
+      apply (xguard_ref exists_coll compact (RepC compact clock) (RepC compact ts) (@sim unit)); auto. apply spop_nil.
+    - (* sclear *) destruct (LS key) as [R1 S1]. apply SW; [|exact Rn].
+      assert (F : fref (RepC compact clock) (RepC compact ts) (@sim unit) (Map.sclear compact key) (Spec.sclear key)).
+      { intros r a Rr Sr. destruct (sclear_ref compact clock key r a Rr Sr) as [W1 W2].
+        split; [exact W1|split; [exact W2|apply PQc, sclear_rep; exact Rr]]. }
+      destruct (F empty_coll [] (RepC_empty compact clock) sim_empty) as (E0 & _). replace (snd (Map.sclear compact key empty_coll)) with (snd (Spec.sclear key [])) by (symmetry; exact E0).
+      apply (xguard_ref exists_coll compact (RepC compact clock) (RepC compact ts) (@sim unit)); auto. apply sclear_nil.
+    - destruct (LS key) as [R1 S1]. destruct (xview_ref forget_c compact (RepC compact clock) (@sim unit) (Fc _) (SFc _) now _ _ R1 S1) as [R2 S2].
+      destruct (set_reads_ref compact clock key _ _ R2 S2) as (a & _). cbn [fst snd]. split; [exact a|exact Keep].
+    - destruct (LS key) as [R1 S1]. destruct (xview_ref forget_c compact (RepC compact clock) (@sim unit) (Fc _) (SFc _) now _ _ R1 S1) as [R2 S2].
+      destruct (set_reads_ref compact clock key _ _ R2 S2) as (_ & a & _). cbn [fst snd]. split; [apply a|exact Keep].
+    - destruct (LS key) as [R1 S1]. destruct (xview_ref forget_c compact (RepC compact clock) (@sim unit) (Fc _) (SFc _) now _ _ R1 S1) as [R2 S2].
+      destruct (set_reads_ref compact clock key _ _ R2 S2) as (_ & _ & a & _). cbn [fst snd]. split; [exact a|exact Keep].
+    - destruct (LS key) as [R1 S1]. destruct (xview_ref forget_c compact (RepC compact clock) (@sim unit) (Fc _) (SFc _) now _ _ R1 S1) as [R2 S2].
+      destruct (set_reads_ref compact clock key _ _ R2 S2) as (_ & _ & _ & a & _). cbn [fst snd]. split; [apply a|exact Keep].
+    - destruct (LS key) as [R1 S1]. destruct (xview_ref forget_c compact (RepC compact clock) (@sim unit) (Fc _) (SFc _) now _ _ R1 S1) as [R2 S2].
+      destruct (set_reads_ref compact clock key _ _ R2 S2) as (_ & _ & _ & _ & a). cbn [fst snd]. split; [exact a|exact Keep].
     - (* zset write *)
-      assert (RZ' : RepZ compact clock (alook empty_zcoll key (m_zset ms))) by (apply alook_rec; [apply RepZ_empty|apply (rs_zset _ _ _ Rs)]).
-      assert (SZ : simz (alook empty_zcoll key (m_zset ms)) (alook [] key (s_zset ss))).
-      { apply (rel2_alook simz); [apply (@sim_empty score)|exact Sz]. }
-      assert (W : zref (MapZ.zstep compact ts key c) (SpecZ.zstep key c) (alook empty_zcoll key (m_zset ms)) (alook [] key (s_zset ss))).
-      { destruct c.
-        - apply (zadd_ref compact clock); auto.
-        - apply (zincrby_ref compact clock); auto.
-        - apply (zrem_ref compact clock); auto.
-        - apply (zremrangebyrank_ref compact clock); auto.
-        - apply (zremrangebyscore_ref compact clock); auto.
-        - apply (zremrangebylex_ref compact clock); auto.
-        - apply (zclear_ref compact clock); auto.
-        - split; [reflexivity|exact SZ]. }
-      destruct W as [W1 W2]. unfold aupd in *.
-      destruct (MapZ.zstep compact ts key c (alook empty_zcoll key (m_zset ms))) as [z' r1].
-      destruct (SpecZ.zstep key c (alook [] key (s_zset ss))) as [a' r2]. cbn [fst snd] in *.
-      split; [exact W1|]. constructor; cbn [m_hash m_set m_zset m_list m_kv s_hash s_set s_zset s_list s_kv]; auto.
-      apply rel2_aput; assumption.
+      destruct (LZ key) as [R1 S1]. apply ZW; [|exact Rn].
+      pose proof (zstep_fref clock ts key c L) as F.
+      destruct (z_renews c) eqn:ZR.
+      + apply (xrenew_ref live_z forget_z compact (RepZ compact clock) (RepZ compact ts) simz); auto.
+      + destruct (F empty_zcoll [] (RepZ_empty compact clock) (@sim_empty score)) as (E0 & _).
+        replace (snd (MapZ.zstep compact ts key c empty_zcoll)) with (snd (SpecZ.zstep key c [])) by (symmetry; exact E0).
+        apply (xguard_ref live_z compact (RepZ compact clock) (RepZ compact ts) simz); auto. apply zguard_nil; exact ZR.
     - (* zset read *)
-      assert (RZ' : RepZ compact clock (alook empty_zcoll key (m_zset ms))) by (apply alook_rec; [apply RepZ_empty|apply (rs_zset _ _ _ Rs)]).
-      assert (SZ : simz (alook empty_zcoll key (m_zset ms)) (alook [] key (s_zset ss))).
-      { apply (rel2_alook simz); [apply (@sim_empty score)|exact Sz]. }
+      destruct (LZ key) as [R1 S1].
+      destruct (xview_ref forget_z compact (RepZ compact clock) simz Fz SFz now _ _ R1 S1) as [RZ' SZ].
       cbn [fst snd]. split; [|exact Keep].
       destruct (zpoint_reads_ref compact clock key _ _ RZ' SZ) as (a1 & a2 & a3).
       destruct q.
@@ -174,72 +420,54 @@ Section Seq.
       + apply (zrank_ref compact clock); auto.
       + reflexivity.
     - (* list write *)
-      assert (RL : RepL compact clock (alook empty_lcoll key (m_list ms))) by (apply alook_rec; [apply RepL_empty|apply (rs_list _ _ _ Rs)]).
-      assert (AB : abs_l (alook empty_lcoll key (m_list ms)) = alook [] key (s_list ss)).
-      { apply (rel2_alook (fun l a => abs_l l = a)); [reflexivity|exact Sl]. }
-      assert (W : snd (MapL.lstep compact ts key c (alook empty_lcoll key (m_list ms))) = snd (SpecL.lstep key c (alook [] key (s_list ss))) /\
-                  abs_l (fst (MapL.lstep compact ts key c (alook empty_lcoll key (m_list ms)))) = fst (SpecL.lstep key c (alook [] key (s_list ss)))).
-      { rewrite <- AB. destruct c.
-        - apply (lpush_ref compact clock); auto. intros TM.
-          destruct vs as [|x0 r0].
-          + unfold push_in_bounds, push_last, seq_room in *. cbn [length]. change (Z.of_nat 0) with 0.
-            pose proof (alook_rec (LB bnd) empty_lcoll key (m_list ms) (LB_empty bnd) LBm) as HB.
-            unfold l_size, l_head, l_tail. destruct (l_meta (alook empty_lcoll key (m_list ms))) as [m0|] eqn:E0.
-            * destruct (HB m0 E0) as [a1 a2]. destruct (rl_meta _ _ _ RL m0 E0) as (hle & _).
-              assert (0 <? lm_tail m0 - lm_head m0 + 1 = true) as -> by lia. unfold max_batch_num in *. destruct tail; cbv iota; lia.
-            * change (0 <? 0) with false. cbv iota. unfold max_batch_num in *. destruct tail; cbv iota; lia.
-          + apply (LB_push_in_bounds compact clock bnd); auto; [|discriminate].
-            apply alook_rec; [apply LB_empty|exact LBm].
-        - apply (lpop_ref compact clock); auto.
-        - apply (lset_ref compact clock); auto.
-        - apply (ltrim_ref compact clock); auto.
-        - apply (lclear_ref compact clock); auto.
-        - cbn. split; reflexivity. }
-      destruct W as [W1 W2]. unfold aupd in *.
-      destruct (MapL.lstep compact ts key c (alook empty_lcoll key (m_list ms))) as [l' r1].
-      destruct (SpecL.lstep key c (alook [] key (s_list ss))) as [a' r2]. cbn [fst snd] in *.
-      split; [exact W1|]. constructor; cbn [m_hash m_set m_zset m_list m_kv s_hash s_set s_zset s_list s_kv]; auto.
-      apply rel2_aput; assumption.
+      destruct (LLs key) as [R1 S1]. apply LW; [|exact Rn].
+      pose proof (lstep_fref clock ts key c bnd L PB Room) as F.
+      destruct (l_renews c) eqn:LR.
+      + apply (xrenew_ref l_exists forget_l compact (fun l => RepL compact clock l /\ LB bnd l) (RepL compact ts) (fun l a => abs_l l = a)); auto.
+      + destruct (F empty_lcoll [] (conj (RepL_empty compact clock) (LB_empty bnd)) eq_refl) as (E0 & _).
+        replace (snd (MapL.lstep compact ts key c empty_lcoll)) with (snd (SpecL.lstep key c [])) by (symmetry; exact E0).
+        apply (xguard_ref l_exists compact (fun l => RepL compact clock l /\ LB bnd l) (RepL compact ts) (fun l a => abs_l l = a)); auto.
+        apply lguard_nil; exact LR.
     - (* list read *)
-      assert (RL : RepL compact clock (alook empty_lcoll key (m_list ms))) by (apply alook_rec; [apply RepL_empty|apply (rs_list _ _ _ Rs)]).
-      assert (AB : abs_l (alook empty_lcoll key (m_list ms)) = alook [] key (s_list ss)).
-      { apply (rel2_alook (fun l a => abs_l l = a)); [reflexivity|exact Sl]. }
+      destruct (LLs key) as [R1 S1].
+      destruct (xview_ref forget_l compact (fun l => RepL compact clock l /\ LB bnd l) (fun l a => abs_l l = a) Fl SFl now _ _ R1 S1) as [[RL _] AB].
       cbn [fst snd]. split; [|exact Keep]. rewrite <- AB.
       destruct (list_reads_ref compact clock key _ RL) as (a1 & a2 & a3).
       destruct q; [exact a1|exact a2|apply (lrange_ref compact clock); exact RL|apply a3|reflexivity].
     - (* kv write *)
-      assert (KR : MapK.kstep ts c (m_kv ms) = SpecK.kstep c (s_kv ss)).
+      assert (KR : MapK.kstep compact ts c (m_kv ms) = SpecK.kstep compact ts c (s_kv ss)).
       { rewrite <- Skv. apply kstep_ref; exact Snd. }
-      rewrite KR. assert (KN : NoDup (map fst (fst (SpecK.kstep c (s_kv ss))))) by (apply kstep_nodup; rewrite <- Skv; exact Snd).
-      rewrite KR in Rn. destruct (SpecK.kstep c (s_kv ss)) as [m r]. cbn [fst snd] in *. split; [reflexivity|].
+      rewrite KR. assert (KN : NoDup (map fst (fst (SpecK.kstep compact ts c (s_kv ss))))) by (apply kstep_nodup; rewrite <- Skv; exact Snd).
+      rewrite KR in Rn. destruct (SpecK.kstep compact ts c (s_kv ss)) as [m r]. cbn [fst snd] in *. split; [reflexivity|].
       constructor; cbn [m_hash m_set m_zset m_list m_kv s_hash s_set s_zset s_list s_kv]; auto.
     - (* kv read *)
       cbn [fst snd]. rewrite Skv. split; [apply kquery_ref|exact Keep].
   Qed.
 
-  (* replies of a whole sequence *)
-  Fixpoint map_trace (cs : list (Z * cmd)) (s : mstate) : list reply :=
+  (* replies of a whole sequence; reads inside the sequence use the read clock `now` *)
+  Fixpoint map_trace (now : Z) (cs : list (Z * cmd)) (s : mstate) : list reply :=
     match cs with
     | [] => []
-    | (ts, c) :: r => let '(s', rp) := map_step compact ts c s in rp :: map_trace r s'
+    | (ts, c) :: r => let '(s', rp) := map_step compact now ts c s in rp :: map_trace now r s'
     end.
-  Fixpoint spec_trace (cs : list (Z * cmd)) (s : sstate) : list reply :=
+  Fixpoint spec_trace (now : Z) (cs : list (Z * cmd)) (s : sstate) : list reply :=
     match cs with
     | [] => []
-    | (_, c) :: r => let '(s', rp) := spec_step c s in rp :: spec_trace r s'
+    | (ts, c) :: r => let '(s', rp) := spec_step compact now ts c s in rp :: spec_trace now r s'
     end.
 
-  Theorem trace_ref cs : forall clock B ms ss, simS clock ms ss -> 0 <= clock -> increasing clock cs ->
+  Theorem trace_ref now cs : forall clock B ms ss, simS clock ms ss -> 0 <= clock -> increasing clock cs ->
     LBS B ms -> 0 <= B -> B + Z.of_nat (length cs) * max_batch_num < seq_room ->
-    map_trace cs ms = spec_trace cs ss /\ simS (last_ts clock cs) (map_run compact cs ms) (spec_run cs ss).
+    map_trace now cs ms = spec_trace now cs ss /\
+    simS (last_ts clock cs) (map_run compact now cs ms) (spec_run compact now cs ss).
   Proof.
     induction cs as [|[ts c] r IH]; intros clock B ms ss S L I LBm PB Room; cbn [map_trace spec_trace map_run spec_run fold_left last_ts].
     - split; [reflexivity|exact S].
     - destruct I as [I1 I2]. cbn [length] in Room.
       assert (MB : 0 < max_batch_num) by (unfold max_batch_num; lia).
-      destruct (step_ref clock ts c B ms ss S ltac:(lia) LBm PB ltac:(nia)) as [E1 S1]. cbn [fst snd].
-      pose proof (map_step_LB clock ts c B ms (ss_rep _ _ _ S) LBm PB) as LB1.
-      destruct (map_step compact ts c ms) as [ms' r1]. destruct (spec_step c ss) as [ss' r2]. cbn [fst snd] in *.
+      destruct (step_ref clock now ts c B ms ss S ltac:(lia) LBm PB ltac:(nia)) as [E1 S1]. cbn [fst snd].
+      pose proof (map_step_LB clock now ts c B ms (ss_rep _ _ _ S) LBm PB) as LB1.
+      destruct (map_step compact now ts c ms) as [ms' r1]. destruct (spec_step compact now ts c ss) as [ss' r2]. cbn [fst snd] in *.
       destruct (IH ts (B + max_batch_num) ms' ss' S1 ltac:(lia) I2 LB1 ltac:(lia) ltac:(nia)) as [E2 S2].
       split; [rewrite E1, E2; reflexivity|exact S2].
   Qed.
@@ -248,31 +476,40 @@ End Seq.
 (* sequences of fewer than seq_room / MAX_BATCH_NUM (about 4.6e14) commands *)
 Definition short_enough (cs : list (Z * cmd)) : Prop := Z.of_nat (length cs) * max_batch_num < seq_room.
 
-Theorem all_sequences_ref compact cs : increasing 0 cs -> short_enough cs ->
-  map_trace compact cs m_init = spec_trace cs s_init.
+Theorem all_sequences_ref compact now cs : increasing 0 cs -> short_enough cs ->
+  map_trace compact now cs m_init = spec_trace compact now cs s_init.
 Proof.
-  intros I Sh. apply (trace_ref compact cs 0 0 m_init s_init); [apply simS_init|lia|exact I|apply LBS_init|lia|exact Sh].
+  intros I Sh. apply (trace_ref compact now cs 0 0 m_init s_init); [apply simS_init|lia|exact I|apply LBS_init|lia|exact Sh].
 Qed.
 
 (* ---------- where the timestamps matter ----------
-   Without expiry commands the raft timestamp reaches the data only as the generation (ValueVersion) that
-   wait_compact gives a collection created while no meta key exists (prepareCollKeyForWrite / renewOnExpired).
-   Under local_deletion the Map model does not look at it at all: *)
-Lemma renum_map_trace cs : forall n s, map_trace false (renum n cs) s = map_trace false cs s.
+   The raft timestamp reaches the data as the generation (ValueVersion) that wait_compact gives a collection
+   created while no live meta key exists (prepareCollKeyForWrite / renewOnExpired), as the clock of the expiry
+   decision of a write, and as the base of the absolute expiry second of EXPIRE / SETEX.  Under local_deletion
+   only the last one is left (the overflow check): the order of the timestamps does not matter there. *)
+Lemma simS_local_clock clock clock' ms ss : simS false clock ms ss -> simS false clock' ms ss.
+Proof. intros [A B C D E F G]. constructor; auto. apply (RepS_local_clock clock); exact A. Qed.
+
+Definition positive_ts (cs : list (Z * cmd)) : Prop := Forall (fun tc => 0 < fst tc) cs.
+
+Theorem local_trace_ref now cs : forall B clock ms ss, simS false clock ms ss -> positive_ts cs ->
+  LBS B ms -> 0 <= B -> B + Z.of_nat (length cs) * max_batch_num < seq_room ->
+  map_trace false now cs ms = spec_trace false now cs ss.
 Proof.
-  induction cs as [|[t c] r IH]; intros n s; cbn [renum map_trace]; [reflexivity|].
-  rewrite (map_step_local_ts n t c s). destruct (map_step false t c s). rewrite IH. reflexivity.
+  induction cs as [|[ts c] r IH]; intros B clock ms ss S Pos LBm PB Room; cbn [map_trace spec_trace]; [reflexivity|].
+  inversion Pos as [|? ? P1 P2]; subst. cbn [fst] in P1. cbn [length] in Room.
+  assert (MB : 0 < max_batch_num) by (unfold max_batch_num; lia).
+  pose proof (simS_local_clock clock (ts - 1) ms ss S) as S'.
+  destruct (step_ref false (ts - 1) now ts c B ms ss S' ltac:(lia) LBm PB ltac:(nia)) as [E1 S1].
+  pose proof (map_step_LB false (ts - 1) now ts c B ms (ss_rep _ _ _ _ S') LBm PB) as LB1.
+  destruct (map_step false now ts c ms) as [ms' r1]. destruct (spec_step false now ts c ss) as [ss' r2]. cbn [fst snd] in *.
+  rewrite E1. f_equal. apply (IH (B + max_batch_num) ts); auto; [lia|nia].
 Qed.
-Lemma renum_spec_trace cs : forall n s, spec_trace (renum n cs) s = spec_trace cs s.
+(* local_deletion: positive timestamps in any order *)
+Theorem local_all_sequences_ref now cs : positive_ts cs -> short_enough cs ->
+  map_trace false now cs m_init = spec_trace false now cs s_init.
 Proof.
-  induction cs as [|[t c] r IH]; intros n s; cbn [renum spec_trace]; [reflexivity|].
-  destruct (spec_step c s). rewrite IH. reflexivity.
-Qed.
-(* local_deletion: arbitrary timestamps *)
-Theorem local_all_sequences_ref cs : short_enough cs -> map_trace false cs m_init = spec_trace cs s_init.
-Proof.
-  intros Sh. rewrite <- (renum_map_trace cs 1), <- (renum_spec_trace cs 1).
-  apply all_sequences_ref; [apply (renum_increasing cs 1)|]. unfold short_enough. rewrite renum_length. exact Sh.
+  intros Pos Sh. apply (local_trace_ref now cs 0 0); [apply simS_init|exact Pos|apply LBS_init|lia|exact Sh].
 Qed.
 
 (* under wait_compact EQUAL timestamps break it: a collection cleared and re-created at the timestamp of its
@@ -280,7 +517,15 @@ Qed.
    "wait_compact renewOnExpired version=ts collision") *)
 Definition equal_ts_cs : list (Z * cmd) :=
   [ (5, CSadd k_ts [b_a]); (5, CSclear k_ts); (5, CSadd k_ts [b_b]); (5, QSmembers k_ts) ].
-Lemma equal_ts_breaks : map_trace true equal_ts_cs m_init <> spec_trace equal_ts_cs s_init.
+Lemma equal_ts_breaks : map_trace true 0 equal_ts_cs m_init <> spec_trace true 0 equal_ts_cs s_init.
+Proof. vm_compute. discriminate. Qed.
+(* the same collision through expiry: a hash that expires in the second of its creation and is written again
+   at the same timestamp gets its old generation back, with the expired field in it *)
+Definition equal_ts_expire_cs : list (Z * cmd) :=
+  [ (5000000000, CHset false k_ts b_a b_1); (5000000000, CExpire TH k_ts 0);
+    (5000000000, CHset false k_ts b_b b_1); (5000000000, QHkeys k_ts) ].
+Lemma equal_ts_expire_breaks :
+  map_trace true 0 equal_ts_expire_cs m_init <> spec_trace true 0 equal_ts_expire_cs s_init.
 Proof. vm_compute. discriminate. Qed.
 
 (* ---------- Spec-level sanity lemmas (guards against a wrong reference model) ---------- *)
